@@ -164,6 +164,21 @@ var roleFinders = map[string]func(fn *ssa.Function) bool{
 	"(*TypeConverter).AddImport": func(fn *ssa.Function) bool {
 		return recvIs(fn, "TypeConverter") && fnStoresField(fn, "x") || (recvIs(fn, "TypeConverter") && sig(fn) == "func(path string, desiredName string) string")
 	},
+	"typeToExpr": func(fn *ssa.Function) bool {
+		// the standalone printer: no receiver, types.Type -> ast.Expr, recursive
+		if fn.Signature.Recv() != nil || sig(fn) != "func(t go/types.Type) go/ast.Expr" && !(fn.Signature.Params().Len() == 1 && fn.Signature.Params().At(0).Type().String() == "go/types.Type" && fn.Signature.Results().Len() == 1 && fn.Signature.Results().At(0).Type().String() == "go/ast.Expr") {
+			return false
+		}
+		for _, cs := range callsIn(fn) {
+			if cs.common.StaticCallee() == fn {
+				return true
+			}
+		}
+		return false
+	},
+	"(*TypeConverter).Imports": func(fn *ssa.Function) bool {
+		return recvIs(fn, "TypeConverter") && fn.Signature.Params().Len() == 0 && fn.Signature.Results().Len() == 1 && strings.HasSuffix(fn.Signature.Results().At(0).Type().String(), "[]"+migPkg+".ImportSpec")
+	},
 }
 
 // resolveRole looks a function up by its pinned name, then by its role.
